@@ -76,6 +76,7 @@ const F_SIGNAL_CARRY: usize = 4;
 const F_NOT_PROCESSED_KEEPS: usize = 5;
 const F_GRAPHNODE_FEWER_INPUTS: usize = 6;
 const F_PARALLEL_EDGE: usize = 7;
+const F_CONSUMER_PANIC: usize = 8;
 
 const P_KIND_BASE: usize = 0; // 13 probes, one per kind processed
 const P_MAG_CAP: usize = 13;
@@ -86,6 +87,16 @@ const P_1024_CALLS: usize = 16;
 // ---------------------------------------------------------------------------------------------
 // wrappers
 // ---------------------------------------------------------------------------------------------
+
+/// Payload of the injected unwinding.
+pub struct InjectedCrash;
+/// A consumer that fails: its `process` unwinds (the host catches it and keeps the processor).
+pub struct Bomb;
+impl Node for Bomb {
+    fn process(&mut self, _inputs: &[Input], _output: &mut [Buffer]) {
+        std::panic::panic_any(InjectedCrash);
+    }
+}
 
 /// A stock `Delay` that replaces itself by its clone before block `clone_at` (counted from 0).
 pub struct SnapDelay {
@@ -633,7 +644,8 @@ fn gen_op(r: &mut Rng, g: &mut Gen, live: usize, edges: usize, calls: u32) -> Op
         O_ADD_EDGE => Op::kab(O_ADD_EDGE, r.range(0, live as i64 - 1), r.range(0, live as i64 - 1)),
         O_REMOVE_EDGE => Op::ka(O_REMOVE_EDGE, r.range(0, edges as i64 - 1)),
         O_REMOVE_NODE => Op::ka(O_REMOVE_NODE, r.range(0, live as i64 - 1)),
-        _ => Op::ka(O_PROCESS, r.range(0, live as i64 - 1)),
+        // b = 1: the call is cut short — a failing consumer is attached to the output node for this call
+        _ => Op::kab(O_PROCESS, r.range(0, live as i64 - 1), r.chance(1, 6) as i64),
     })
 }
 
@@ -783,7 +795,27 @@ fn drive<W: Wrap, G: GraphLike<W>>(src: &mut Source, obs: &mut Observer) -> Resu
                     .iter()
                     .flatten()
                     .any(|n| n.bufs.iter().any(|b| b.iter().any(|v| v.abs() > 4_000_000.0)));
-                g.run(&mut p, NodeIndex::new(out));
+                if op.b == 1 {
+                    // crash injection: a consumer hanging off the output node fails after everything
+                    // upstream of it has run; the host catches the failure, detaches the consumer and
+                    // keeps using graph and processor.  Everything the reference evaluated has run.
+                    CUR_TAG.with(|c| c.set(0));
+                    let bomb = g.add(NodeData::new(W::wrap(Bomb), Vec::new()));
+                    g.connect(NodeIndex::new(out), bomb);
+                    let r = std::panic::catch_unwind(std::panic::AssertUnwindSafe(|| g.run(&mut p, bomb)));
+                    assert!(g.remove(bomb).is_some(), "harness mirror: failing consumer missing");
+                    match r {
+                        Ok(()) => check!(obs, false, "nodes.node-panic-propagates", "process() returned although a node on the path unwound"),
+                        Err(pl) => {
+                            if !pl.is::<InjectedCrash>() {
+                                std::panic::resume_unwind(pl);
+                            }
+                            obs.fault(F_CONSUMER_PANIC);
+                        }
+                    }
+                } else {
+                    g.run(&mut p, NodeIndex::new(out));
+                }
                 if too_big {
                     // f32 sums would stop being exact: outside the exact-arithmetic domain of this run
                     obs.probe(P_MAG_CAP);
@@ -887,6 +919,7 @@ impl Scenario for NodesScenario {
             "nodes outside the upstream set keep their buffers",
             "nested graph node with fewer inputs than inner input nodes (stale inner buffers)",
             "parallel edge",
+            "node panic: a consumer attached to the output fails mid-call, the host catches it and reuses graph and processor",
         ]
     }
     fn probes(&self) -> &'static [&'static str] {
